@@ -471,14 +471,61 @@ template <class S, class T> static void conv_float ()
     { Quat<S> a (v[0], v[1], v[2], v[3]); Quat<T> b (a); w[0] = b.r; w[1] = b.v.x; w[2] = b.v.y; w[3] = b.v.z; emit_conv2 ("Quat ctor", v, w, 4); }
 }
 
+// numeric limits and dimension count exposed by every aggregate (they bound Box::makeEmpty / makeInfinite and user clamping code)
+template <class F, class T> static void limits (int dims)
+{
+    typedef typename F::A A;
+    T v[4] = {A::baseTypeLowest (), A::baseTypeMax (), A::baseTypeSmallest (), A::baseTypeEpsilon ()};
+    std::string lim = jl (v, 4);
+    if (std::numeric_limits<T>::is_integer)          // 64-bit limits do not fit the checker's integers: log the sign-extended two's complement words
+    {
+        lim = "[";
+        for (int i = 0; i < 4; ++i)
+        {
+            uint64_t u = (uint64_t) (int64_t) v[i];
+            lim += std::string (i ? "," : "") + "[" + std::to_string ((u >> 48) & 0xffff) + "," + std::to_string ((u >> 32) & 0xffff) + "," + std::to_string ((u >> 16) & 0xffff) + "," + std::to_string (u & 0xffff) + "]";
+        }
+        lim += "]";
+    }
+    fputs ((std::string ("{\"e\":\"agglim\",\"fam\":\"") + F::name () + "\",\"T\":\"" + E<T>::tag () + "\",\"n\":" + std::to_string ((int) F::N) + ",\"lim\":" + lim +
+            ",\"dims\":" + std::to_string ((int) A::dimensions ()) + ",\"want\":" + std::to_string (dims) + "}\n").c_str (), o);
+}
+// default construction and makeIdentity of matrices: the identity whatever the object held before
+template <class F, class T> static void identity ()
+{
+    typedef typename F::A A;
+    T v[16], w[16];
+    for (int i = 0; i < F::N; ++i) v[i] = E<T>::pool (2, i);
+    A d; F::idx (d, w);
+    fputs ((std::string ("{\"e\":\"aggident\",\"fam\":\"") + F::name () + "\",\"T\":\"" + E<T>::tag () + "\",\"n\":" + std::to_string ((int) F::N) + ",\"how\":\"default\",\"out\":" + jl (w, F::N) + "}\n").c_str (), o);
+    A m = F::make (v); m.makeIdentity (); F::idx (m, w);
+    fputs ((std::string ("{\"e\":\"aggident\",\"fam\":\"") + F::name () + "\",\"T\":\"" + E<T>::tag () + "\",\"n\":" + std::to_string ((int) F::N) + ",\"how\":\"makeIdentity\",\"out\":" + jl (w, F::N) + "}\n").c_str (), o);
+    A b (E<T>::scalar (1)); F::idx (b, w); T sc = E<T>::scalar (1);
+    fputs ((std::string ("{\"e\":\"aggfill\",\"fam\":\"") + F::name () + "\",\"T\":\"" + E<T>::tag () + "\",\"n\":" + std::to_string ((int) F::N) + ",\"how\":\"ctor(a)\",\"a\":" + jl (&sc, 1) + ",\"out\":" + jl (w, F::N) + "}\n").c_str (), o);
+}
+// broadcast construction of vectors / colours / (zero) shears: every slot holds the one value
+template <class F, class T> static void fill ()
+{
+    typedef typename F::A A;
+    T w[16]; T sc = E<T>::scalar (2);
+    A b (sc); F::idx (b, w);
+    fputs ((std::string ("{\"e\":\"aggfill\",\"fam\":\"") + F::name () + "\",\"T\":\"" + E<T>::tag () + "\",\"n\":" + std::to_string ((int) F::N) + ",\"how\":\"ctor(a)\",\"a\":" + jl (&sc, 1) + ",\"out\":" + jl (w, F::N) + "}\n").c_str (), o);
+}
+
 template <class T> static void statics_vec ()
 {
+    limits<FVec2<T>, T> (2); limits<FVec3<T>, T> (3); limits<FVec4<T>, T> (4);
+    fill<FVec2<T>, T> (); fill<FVec3<T>, T> (); fill<FVec4<T>, T> ();
     statics<FVec2<T>, T> (); statics<FVec3<T>, T> (); statics<FVec4<T>, T> ();
     text<FVec2<T>, T> (1); text<FVec3<T>, T> (1); text<FVec4<T>, T> (1);
 }
 template <class T> static void statics_float ()
 {
     statics_vec<T> ();
+    limits<FColor3<T>, T> (3); limits<FColor4<T>, T> (4); limits<FShear6<T>, T> (6);
+    limits<FM22<T>, T> (2); limits<FM33<T>, T> (3); limits<FM44<T>, T> (4);
+    identity<FM22<T>, T> (); identity<FM33<T>, T> (); identity<FM44<T>, T> ();
+    fill<FColor3<T>, T> (); fill<FColor4<T>, T> ();
     statics<FColor3<T>, T> (); statics<FColor4<T>, T> (); statics<FShear6<T>, T> (); statics<FQuat<T>, T> ();
     statics<FM22<T>, T> (); statics<FM33<T>, T> (); statics<FM44<T>, T> ();
     tolerant<FVec2<T>, T> (); tolerant<FVec3<T>, T> (); tolerant<FVec4<T>, T> (); tolerant<FShear6<T>, T> ();
@@ -565,6 +612,8 @@ int main (int argc, char** argv)
     statics_vec<short> (); statics_vec<int> (); statics_vec<int64_t> (); statics_vec<half> ();
     statics<FColor3<unsigned char>, unsigned char> (); statics<FColor4<unsigned char>, unsigned char> ();
     statics<FColor3<half>, half> (); statics<FColor4<half>, half> ();
+    limits<FColor3<unsigned char>, unsigned char> (3); limits<FColor4<unsigned char>, unsigned char> (4); limits<FColor4<half>, half> (4);
+    fill<FColor3<unsigned char>, unsigned char> (); fill<FColor4<half>, half> ();
     tolerant<FVec3<int>, int> (); tolerant<FVec4<short>, short> ();
     statics_float<float> (); statics_float<double> ();
     interop<float, double> (); interop<double, float> (); interop<int, short> (); interop<short, int> ();
